@@ -527,6 +527,17 @@ def quote_value(rng, v, extra):
     return bytes(out)
 
 
+def quote_forced(v, mode):
+    """quoted-string with a quoted pair at the first byte ("esc1") or at every byte ("escall")"""
+    out = bytearray(b'"')
+    for i, c in enumerate(v):
+        if mode == "escall" or i == 0 or c in (0x22, 0x5c):
+            out.append(0x5c)
+        out.append(c)
+    out.append(0x22)
+    return bytes(out)
+
+
 def rnd_ws(rng, p):
     return rnd_bytes(rng, b" \t ", 1, 2) if rng.random() < p else b""
 
@@ -580,8 +591,7 @@ def render(rng, sem, style=None, force=None):
             as_token = tokenable and rng.random() < TOKEN_PREF.get(nm, 0.15)
         if force.get(nm) in ("esc1", "escall") and len(v) > 0:
             as_token = False
-            body = b'"' + (b"".join(b"\\" + bytes([c]) for c in v) if force[nm] == "escall"
-                           else b"\\" + b"".join((b"\\" if c in (0x22, 0x5c) else b"") + bytes([c]) for c in v)[(1 if v[0] in (0x22, 0x5c) else 0):]) + b'"'
+            body = quote_forced(v, force[nm])
             rl = len(body) - 2
         elif as_token:
             body, rl = v, len(v)
@@ -1533,11 +1543,47 @@ class Spec:
                 reqs += nreq
                 if sample and len(samples) < 2:
                     samples.append([l[:200] for l in sample])
+        astats = {k: v for k, v in stats.items() if k.startswith("alloc|")}
+        stats = {k: v for k, v in stats.items() if not k.startswith("alloc|")}
         okc = sum(v for k, v in stats.items() if k.endswith(":OK") or k.endswith(":YES"))
         classes = {}
         for k, v in stats.items():
             c = k.rsplit(":", 1)[-1]
             classes[c] = classes.get(c, 0) + v
+        alloc = {"cases": 0, "needing_heap": 0, "error_results": 0, "error_instead_of_other_refusal": 0,
+                 "stopped_earlier_or_legacy_no": 0, "unchanged_results": 0, "unchanged_accepted": 0, "violations_seen": 0,
+                 "by_param": {}, "by_entry_point": {}, "by_algorithm": {},
+                 "same_credentials_with_malloc_working": {"cases": 0, "accepted": 0, "by_param": {}}}
+        for k, v in astats.items():
+            _, mode, params, api, algo, outcome = k.split("|", 5)
+            if mode == "ctl":
+                c = alloc["same_credentials_with_malloc_working"]
+                c["cases"] += v
+                c["accepted"] += v if outcome == "accepted" else 0
+                c["by_param"][params] = c["by_param"].get(params, 0) + v
+                continue
+            alloc["cases"] += v
+            alloc["by_entry_point"][api] = alloc["by_entry_point"].get(api, 0) + v
+            alloc["by_algorithm"][algo] = alloc["by_algorithm"].get(algo, 0) + v
+            bp = alloc["by_param"].setdefault(params, {})
+            bp[outcome] = bp.get(outcome, 0) + v
+            if params != "none":
+                alloc["needing_heap"] += v
+            if outcome == "error":
+                alloc["error_results"] += v
+            elif outcome == "error-instead":
+                alloc["error_instead_of_other_refusal"] += v
+            elif outcome == "stopped-earlier-or-no":
+                alloc["stopped_earlier_or_legacy_no"] += v
+            elif outcome.startswith("unchanged"):
+                alloc["unchanged_results"] += v
+                alloc["unchanged_accepted"] += v if outcome == "unchanged-accepted" else 0
+            else:
+                alloc["violations_seen"] += v
+        alloc["reachable"] = ("cnonce (quoted pairs, up to 65535 bytes), uri (always copied, length + 1), username* (length - 6), "
+                              "nonce with quoted pairs for the 32-byte digests (152 bytes as sent); nc (at most 32 bytes as sent), "
+                              "response (at most 4 * digest size = 128), qop (at most 8 bytes as sent for `auth`) cannot exceed the "
+                              "stack buffer on a path that reaches their unquoting")
         cov = {"evaluations": evals + ncorpus, "requests": reqs, "accepted": okc, "result_classes": dict(sorted(classes.items())),
                "distinct_nontrivial": len(stats),
                "rule": "one evaluation = one daemon life (a nonce issued by the real calculate_add_nonce inside a request, the valid "
@@ -1547,9 +1593,13 @@ class Spec:
                        "the clock stands at that lifetime -1000..+1000 ms and counts above the lifetime's numeric value are presented, "
                        "then clock steps across the default timeout), run on the real daemon and on the Lean model, "
                        "compared line by line (result class, request as seen by the handler, final nonce table) and judged by the "
-                       "RFC reference oracle; distinct_nontrivial = number of distinct (API function, mutation, oracle reason, "
+                       "RFC reference oracle; in about a third of the lives (and most of those whose path exceeds 110 bytes) an "
+                       "allocation phase presents credentials whose cnonce / uri / username* / nonce does not fit the 128-byte stack "
+                       "buffer (and controls of exactly 128 bytes) while every malloc inside the check fails (`failmalloc 1`, "
+                       "-Wl,--wrap=malloc) and while it works; distinct_nontrivial = number of distinct (API function, mutation, oracle reason, "
                        "answer of the code) tuples that occurred (listed in `branches`)",
                "samples": samples, "branches": dict(sorted(stats.items())), "corpus": ncorpus,
+               "alloc_failure": alloc,
                "correspondence": {"MHD_digest_auth_check3/_check_digest3/_check/_check2/_check_digest/_check_digest2": "random, %d requests" % reqs,
                                   "calculate_nonce + binding options": "random (every issue compared with model and reference)",
                                   "check_uri_match / MHD_parse_arguments_": "random targets with pct-encoding, '+', key-only and empty pieces",
